@@ -123,3 +123,17 @@ def eig(*a, **k):
 
 def norm(*a, **k):
     np._unsupported("norm")
+
+
+def __getattr__(name):
+    """a numpy feature the shim does not model: the check that needs it is INCONCLUSIVE (exit 2), never a verdict;
+    names that numpy itself does not have are ordinary AttributeErrors"""
+    import importlib
+    try:
+        real = importlib.import_module("numpy.linalg")
+    except Exception:
+        real = None
+    if name.startswith('_') or real is None or not hasattr(real, name):
+        raise AttributeError("module %r has no attribute %r" % ("numpy.linalg", name))
+    import symnp as _np
+    _np._unsupported("numpy.linalg.%s" % name)
